@@ -312,6 +312,9 @@ var templates = map[string]func(n, m int) string{
 	},
 	// generic for with n loop variables and a body that needs no register above them (m selects the body)
 	"genfor_vars": func(n, m int) string {
+		if n < 1 {
+			n = 1
+		}
 		var vs []string
 		for i := 1; i <= n; i++ {
 			vs = append(vs, fmt.Sprintf("v%d", i))
